@@ -16,7 +16,7 @@ PROPS = {
         trusted=["float64 arithmetic on costs (model uses naturals; generators use small integer costs)",
                  "github.com/jupp0r/go-priority-queue (pop order is irrelevant: the theorem holds for every order)",
                  "real-time bound 'within K update periods' is measured by the mesh engine, not proved",
-                 "termination of the label-correcting loop is not proved (lc_terminates): the driver's model runs under a pop budget"],
+                 "the driver's executable model of the label-correcting loop runs under a pop budget (termination itself is proved: lc_terminates_every_schedule)"],
         assumptions=["positive link costs"],
     ),
     "C02": dict(
